@@ -1034,3 +1034,72 @@ Theorem idempotent_dns_refuted :
   exists s1 l1, sync_dns wv_dns_empty_labels [] [] = (s1, l1, ROk) /\
                 sync_dns wv_dns_empty_labels [] s1 = (s1, [(VUpdate, "vs-a")], ROk).
 Proof. do 2 eexists. split; vm_compute; reflexivity. Qed.
+
+(* ------------------------------------------------------------------ the lister reflects the cluster *)
+
+(* with cache = cluster the two-store functions are the one-store functions all theorems are about *)
+Lemma sync_cert2_coherent cs ord v fs st : sync_cert2 cs ord v fs st st = sync_cert cs ord v fs st.
+Proof.
+  unfold sync_cert2, sync_cert. destruct (v_tls v) as [t|]; [|reflexivity].
+  destruct (t_cm t) as [cm|]; [|reflexivity]. destruct (desired_cert v t cm) as [crt|]; [|reflexivity].
+  cbn zeta. pose proof (build_certificates_spec cs (v_uid v) (t_secret t) crt st) as B.
+  destruct (build_certificates cs (v_uid v) (t_secret t) crt st) as [|c|c]; [reflexivity| |].
+  - destruct B as [L _]. unfold write_then_gc2, write_then_gc. destruct (pop fs) as [[f|] fs']; [reflexivity|].
+    rewrite L. reflexivity.
+  - destruct B as [e [L _]]. unfold write_then_gc2, write_then_gc. destruct (pop fs) as [[f|] fs']; [reflexivity|].
+    rewrite L. reflexivity.
+Qed.
+
+Lemma sync_dns2_coherent v fs st : sync_dns2 v fs st st = sync_dns v fs st.
+Proof.
+  unfold sync_dns2, sync_dns. destruct (negb (x_enable (v_xdns v))); [reflexivity|].
+  destruct (v_endpoints v) as [eps|]; [|reflexivity]. destruct (valid_targets eps) as [[ts rt]|]; [|reflexivity].
+  cbn zeta. pose proof (build_dnsendpoint_spec v (desired_dns v ts rt) st) as B.
+  destruct (build_dnsendpoint v (desired_dns v ts rt) st) as [|c|c]; [reflexivity| |].
+  - destruct B as [L _]. destruct (pop fs) as [[f|] fs']; [reflexivity|]. rewrite L. reflexivity.
+  - destruct B as [e [L _]]. destruct (pop fs) as [[f|] fs']; [reflexivity|]. rewrite L. reflexivity.
+Qed.
+
+(* the cache is only read: a stale or tampered cache changes what is written, never which objects may
+   be written -- every action still targets what the CACHE shows as controlled by the VirtualServer *)
+Lemma sync_dns2_actions v fs cache cluster st' lg r :
+  sync_dns2 v fs cache cluster = (st', lg, r) -> Forall (action_ok d_owner cache (v_uid v)) lg.
+Proof.
+  unfold sync_dns2. destruct (negb (x_enable (v_xdns v))); [intros H; inversion H; constructor|].
+  destruct (v_endpoints v) as [eps|]; [|intros H; inversion H; constructor].
+  destruct (valid_targets eps) as [[ts rt]|]; [|intros H; inversion H; constructor].
+  cbn zeta. pose proof (build_dnsendpoint_spec v (desired_dns v ts rt) cache) as B.
+  destruct (build_dnsendpoint v (desired_dns v ts rt) cache) as [|c|c]; [intros H; inversion H; constructor| |].
+  - destruct B as [L _]. intros H.
+    assert (lg = [(VCreate, v_name v)]) as ->.
+    { destruct (pop fs) as [[[]|] fs']; try (inversion H; reflexivity).
+      destruct (lookup (v_name v) cluster); inversion H; reflexivity. }
+    constructor; [exact L|constructor].
+  - destruct B as [e [L [Ce _]]]. intros H.
+    assert (lg = [(VUpdate, v_name v)]) as ->.
+    { destruct (pop fs) as [[f|] fs']; try (inversion H; reflexivity).
+      destruct (lookup (v_name v) cluster); inversion H; reflexivity. }
+    constructor; [exists e; auto|constructor].
+Qed.
+
+Lemma run_cert2_coherent cs h : forall st, run_cert2 cs h (st, st) = (run_cert cs h st, run_cert cs h st).
+Proof.
+  induction h as [|e h IH]; intros st; [reflexivity|]. cbn.
+  unfold step_cert2 at 1. cbn [fst snd]. rewrite sync_cert2_coherent. apply IH.
+Qed.
+
+Lemma run_dns2_coherent h : forall st, run_dns2 h (st, st) = (run_dns h st, run_dns h st).
+Proof.
+  induction h as [|e h IH]; intros st; [reflexivity|]. cbn.
+  unfold step_dns2 at 1. cbn [fst snd]. rewrite sync_dns2_coherent. apply IH.
+Qed.
+
+Theorem lister_reflects_cluster :
+  (forall cs ord v fs st, sync_cert2 cs ord v fs st st = sync_cert cs ord v fs st) /\
+  (forall v fs st, sync_dns2 v fs st st = sync_dns v fs st) /\
+  (forall cs h st, run_cert2 cs h (st, st) = (run_cert cs h st, run_cert cs h st)) /\
+  (forall h st, run_dns2 h (st, st) = (run_dns h st, run_dns h st)).
+Proof.
+  split; [exact sync_cert2_coherent|]. split; [exact sync_dns2_coherent|].
+  split; [exact run_cert2_coherent|exact run_dns2_coherent].
+Qed.
